@@ -566,7 +566,14 @@ func (rr *runRec) barOptions(bi int) (mpb.BarFiller, []mpb.BarOption) {
 		if rr.sc.NoK {
 			k = 0 // rows that do not change from frame to frame
 		}
-		return fmt.Sprintf("<%d|%d/%d|C%dA%d|%d>", s.ID, s.Current, s.Total, b2i(s.Completed), b2i(s.Aborted), k)
+		wantID := bi
+		if spec.DupID > 0 {
+			wantID = 100000 + spec.DupID
+		}
+		if s.ID != wantID {
+			return fmt.Sprintf("!statistics of bar %d carry id %d, the bar was created with id %d!", bi, s.ID, wantID)
+		}
+		return fmt.Sprintf("<%d|%d/%d|C%dA%d|%d>", bi, s.Current, s.Total, b2i(s.Completed), b2i(s.Aborted), k)
 	})
 	pre := []decor.Decorator{marker}
 	for i, d := range spec.Pre {
@@ -581,7 +588,11 @@ func (rr *runRec) barOptions(bi int) (mpb.BarFiller, []mpb.BarOption) {
 		// meta decorations: colour only on completion / only on abort
 		app = append(app, decor.OnAbortMeta(decor.OnCompleteMeta(decor.Name("(m)"), metaDone), metaAbrt))
 	}
-	opts := []mpb.BarOption{mpb.BarID(bi), mpb.PrependDecorators(pre...), mpb.AppendDecorators(app...)}
+	id := bi
+	if spec.DupID > 0 {
+		id = 100000 + spec.DupID // an id the user chose, shared with another bar: ids need not be unique
+	}
+	opts := []mpb.BarOption{mpb.BarID(id), mpb.PrependDecorators(pre...), mpb.AppendDecorators(app...)}
 	if spec.Prio != nil {
 		opts = append(opts, mpb.BarPriority(*spec.Prio))
 	}
@@ -611,10 +622,10 @@ func (rr *runRec) barOptions(bi int) (mpb.BarFiller, []mpb.BarOption) {
 				return scriptedErr(kind)
 			}
 			for j := 0; j < n; j++ {
-				fmt.Fprintf(w, "<%d+%d>\n", st.ID, j)
+				fmt.Fprintf(w, "<%d+%d>\n", bi, j)
 			}
 			if frag {
-				fmt.Fprintf(w, "<%d+frag>", st.ID) // no newline: not a line, must not become a row
+				fmt.Fprintf(w, "<%d+frag>", bi) // no newline: not a line, must not become a row
 			}
 			return nil
 		}), spec.ExtRev))
